@@ -163,5 +163,208 @@ theorem travNext_equiv {φ : Nat → Nat} {s s' : View} (R : Renum φ s s') (idx
         have := cont none d { st with seeds := rest }
         simpa [mapState, hseeds] using this
 
+/-! ### the whole traversal -/
+
+theorem travCollect_equiv {φ : Nat → Nat} {s s' : View} (R : Renum φ s s') (idx : List Nat) (f : Nat) :
+    ∀ (n : Nat) (st : TravState) (acc : List TravItem),
+      travCollect s' idx f n (mapState φ st) (acc.map (mapItem φ)) =
+        (travCollect s idx f n st acc).map (mapItem φ)
+  | 0, _, acc => by simp [travCollect]
+  | n + 1, st, acc => by
+    rw [travCollect, travCollect, travNext_equiv R idx f st]
+    cases travNext s idx f st with
+    | none => simp
+    | some r =>
+      simp only [Option.map_some]
+      have := travCollect_equiv R idx f n r.2 (r.1 :: acc)
+      rw [List.map_cons] at this
+      exact this
+
+theorem mapTodo_todoInit (φ : Nat → Nat) (idx : List Nat) : mapTodo φ (todoInit idx) = todoInit idx := by
+  unfold mapTodo todoInit
+  simp only [List.map_map]
+  apply List.map_congr_left
+  intro i _
+  rfl
+
+/-- **the traversal of the renumbered view is the renumbered traversal** -/
+theorem traversal_equiv {φ : Nat → Nat} {s s' : View} (R : Renum φ s s') (idx seeds : List Nat) :
+    s'.traversal idx (seeds.map φ) = (s.traversal idx seeds).map (mapItem φ) := by
+  unfold View.traversal
+  have hf : s'.travFuel idx (seeds.map φ) = s.travFuel idx seeds := by
+    unfold View.travFuel; rw [R.size, List.length_map]
+  rw [hf]
+  have h0 : ({ seeds := seeds.map φ, seen := [], todo := todoInit idx } : TravState) =
+      mapState φ { seeds := seeds, seen := [], todo := todoInit idx } := by
+    simp only [mapState, mapSeen, List.map_nil, mapTodo_todoInit]
+  have := travCollect_equiv R idx (s.travFuel idx seeds) (s.travFuel idx seeds)
+    { seeds := seeds, seen := [], todo := todoInit idx } []
+  rw [List.map_nil] at this
+  simp only
+  rw [h0]
+  exact this
+
+/-! ### the code -/
+
+/-- two outcomes agree in kind and, when both returned, are related -/
+def OutRel {α β : Type} (r : α → β → Prop) : Outcome α → Outcome β → Prop
+  | .ok a, .ok b => r a b
+  | .err, .err => True
+  | .panic, .panic => True
+  | _, _ => False
+
+/-- the code state over `s` and over the renumbered `s'`: same counter and buffer, and the
+    element maps correspond under `φ` -/
+structure CodeRel (φ : Nat → Nat) (st st' : CodeState) : Prop where
+  next : st'.next = st.next
+  buf : st'.buf = st.buf
+  emap : ∀ d, st'.emap[φ d]? = st.emap[d]?
+
+theorem pushVs_equiv {φ : Nat → Nat} {v v' : Nat → Nat → Option Nat} (d : Nat) :
+    ∀ (is : List Nat) (buf : Array Int), (∀ i ∈ is, v' i (φ d) = v i d) →
+      pushVs v' (φ d) is buf = pushVs v d is buf
+  | [], _, _ => rfl
+  | i :: is, buf, h => by
+    rw [pushVs, pushVs, h i (List.mem_cons_self ..)]
+    cases v i d with
+    | none => rfl
+    | some x => exact pushVs_equiv d is _ (fun j hj => h j (List.mem_cons_of_mem _ hj))
+
+theorem getElem?_setIfInBounds_map {φ : Nat → Nat} (hφ : ∀ a b, φ a = φ b → a = b)
+    {a a' : Array Nat} (h : ∀ d, a'[φ d]? = a[d]?) (t x : Nat) :
+    ∀ d, (a'.setIfInBounds (φ t) x)[φ d]? = (a.setIfInBounds t x)[d]? := by
+  intro d
+  rw [Array.getElem?_setIfInBounds, Array.getElem?_setIfInBounds]
+  by_cases hd : t = d
+  · subst hd
+    have := h t
+    simp only [if_true]
+    by_cases hl : t < a.size
+    · have hl' : φ t < a'.size := by
+        by_contra hc
+        have e1 : a'[φ t]? = none := Array.getElem?_eq_none (by omega)
+        have e2 : a[t]? = some a[t] := Array.getElem?_eq_getElem hl
+        rw [e1, e2] at this
+        cases this
+      simp [hl, hl']
+    · have hl' : ¬ φ t < a'.size := by
+        intro hc
+        have e1 : a[t]? = none := Array.getElem?_eq_none (by omega)
+        have e2 : a'[φ t]? = some a'[φ t] := Array.getElem?_eq_getElem hc
+        rw [e1, e2] at this
+        cases this
+      simp [hl, hl']
+  · have : ¬ φ t = φ d := fun hc => hd (hφ _ _ hc)
+    rw [if_neg this, if_neg hd]
+    exact h d
+
+/-- **one `advance()` commutes with the renumbering** -/
+theorem codeAdvance_equiv {φ : Nat → Nat} (hφ : ∀ a b, φ a = φ b → a = b) {dim : Nat}
+    {v v' : Nat → Nat → Option Nat} (hv : ∀ i d, i < dim → v' i (φ d) = v i d)
+    {st st' : CodeState} (R : CodeRel φ st st') (it : TravItem) :
+    OutRel (CodeRel φ) (codeAdvance dim v st it) (codeAdvance dim v' st' (mapItem φ it)) := by
+  obtain ⟨mi, src, tgt⟩ := it
+  unfold codeAdvance mapItem
+  simp only
+  rw [R.emap tgt, R.next, R.buf]
+  cases h0 : st.emap[tgt]? with
+  | none => trivial
+  | some m0 =>
+    simp only
+    have hemap : ∀ d, (if m0 = 0 then st'.emap.setIfInBounds (φ tgt) st.next else st'.emap)[φ d]? =
+        (if m0 = 0 then st.emap.setIfInBounds tgt st.next else st.emap)[d]? := by
+      intro d
+      by_cases hm : m0 = 0
+      · rw [if_pos hm, if_pos hm]
+        exact getElem?_setIfInBounds_map hφ R.emap tgt st.next d
+      · rw [if_neg hm, if_neg hm]; exact R.emap d
+    rw [hemap src]
+    cases h1 : (if m0 = 0 then st.emap.setIfInBounds tgt st.next else st.emap)[src]? with
+    | none => trivial
+    | some ms =>
+      simp only
+      by_cases hn : (if m0 = 0 then st.next else m0) = st.next
+      · rw [if_pos hn, if_pos hn]
+        rw [pushVs_equiv (φ := φ) (v := v) (v' := v') tgt (List.range dim) _
+          (fun i hi => hv i tgt (List.mem_range.1 hi))]
+        cases pushVs v tgt (List.range dim)
+            (match mi with
+              | some i => ((st.buf.push (i : Int)).push (ms : Int)).push ((if m0 = 0 then st.next else m0 : Nat) : Int)
+              | none => (st.buf.push (-1)).push (ms : Int)) with
+        | ok b => exact ⟨rfl, rfl, hemap⟩
+        | err => trivial
+        | panic => trivial
+      · rw [if_neg hn, if_neg hn]
+        exact ⟨rfl, rfl, hemap⟩
+
+theorem codeFold_equiv {φ : Nat → Nat} (hφ : ∀ a b, φ a = φ b → a = b) {dim : Nat}
+    {v v' : Nat → Nat → Option Nat} (hv : ∀ i d, i < dim → v' i (φ d) = v i d) :
+    ∀ (its : List TravItem) (st st' : CodeState), CodeRel φ st st' →
+      OutRel (CodeRel φ) (codeFold dim v its st) (codeFold dim v' (its.map (mapItem φ)) st')
+  | [], st, st', R => R
+  | it :: its, st, st', R => by
+    have h := codeAdvance_equiv hφ hv R it
+    rw [List.map_cons, codeFold, codeFold]
+    cases h1 : codeAdvance dim v st it with
+    | ok a =>
+      cases h2 : codeAdvance dim v' st' (mapItem φ it) with
+      | ok a' =>
+        rw [h1, h2] at h
+        exact codeFold_equiv hφ hv its a a' h
+      | err => rw [h1, h2] at h; exact h.elim
+      | panic => rw [h1, h2] at h; exact h.elim
+    | err =>
+      cases h2 : codeAdvance dim v' st' (mapItem φ it) with
+      | ok a' => rw [h1, h2] at h; exact h.elim
+      | err => trivial
+      | panic => rw [h1, h2] at h; exact h.elim
+    | panic =>
+      cases h2 : codeAdvance dim v' st' (mapItem φ it) with
+      | ok a' => rw [h1, h2] at h; exact h.elim
+      | err => rw [h1, h2] at h; exact h.elim
+      | panic => trivial
+
+/-- **Equivariance of the traversal code.**  For a renumbering `φ` (injective, respecting the
+    index range of the element map) the code of the renumbered view started at `φ seed` is the
+    code of the original view started at `seed`, and the element maps correspond:
+    `map' (φ d) = map d`. -/
+theorem traversalCodeOf_equiv {φ : Nat → Nat} {s s' : View} (R : Renum φ s s')
+    (hb : ∀ d, φ d ≤ s.size ↔ d ≤ s.size)
+    {v v' : Nat → Nat → Option Nat} (hv : ∀ i d, i < s.dim → v' i (φ d) = v i d) (seed : Nat) :
+    OutRel (fun c c' => c'.code = c.code ∧ ∀ d, c'.map[φ d]? = c.map[d]?)
+      (traversalCodeOf s v seed) (traversalCodeOf s' v' (φ seed)) := by
+  unfold traversalCodeOf
+  have hidx : s'.indices = s.indices := by unfold View.indices; rw [R.dim]
+  have htr : s'.traversal s'.indices [φ seed] = (s.traversal s.indices [seed]).map (mapItem φ) := by
+    rw [hidx]; exact traversal_equiv R s.indices [seed]
+  have h0 : CodeRel φ (CodeState.init s.size) (CodeState.init s'.size) := by
+    refine ⟨rfl, rfl, ?_⟩
+    intro d
+    show (Array.replicate (s'.size + 1) 0)[φ d]? = (Array.replicate (s.size + 1) 0)[d]?
+    rw [R.size, Array.getElem?_replicate, Array.getElem?_replicate]
+    by_cases hd : d ≤ s.size
+    · rw [if_pos (by have := (hb d).2 hd; omega), if_pos (by omega)]
+    · rw [if_neg (by have := (hb d).not.2 hd; omega), if_neg (by omega)]
+  have h := codeFold_equiv R.inj (dim := s.dim) hv (s.traversal s.indices [seed]) _ _ h0
+  rw [htr, R.dim]
+  cases h1 : codeFold s.dim v (s.traversal s.indices [seed]) (CodeState.init s.size) with
+  | ok a =>
+    cases h2 : codeFold s.dim v' ((s.traversal s.indices [seed]).map (mapItem φ)) (CodeState.init s'.size) with
+    | ok a' =>
+      rw [h1, h2] at h
+      exact ⟨by simp only; rw [h.buf], h.emap⟩
+    | err => rw [h1, h2] at h; exact h.elim
+    | panic => rw [h1, h2] at h; exact h.elim
+  | err =>
+    cases h2 : codeFold s.dim v' ((s.traversal s.indices [seed]).map (mapItem φ)) (CodeState.init s'.size) with
+    | ok a' => rw [h1, h2] at h; exact h.elim
+    | err => trivial
+    | panic => rw [h1, h2] at h; exact h.elim
+  | panic =>
+    cases h2 : codeFold s.dim v' ((s.traversal s.indices [seed]).map (mapItem φ)) (CodeState.init s'.size) with
+    | ok a' => rw [h1, h2] at h; exact h.elim
+    | err => rw [h1, h2] at h; exact h.elim
+    | panic => trivial
+
 end CanonP
 end DSymVerif.DS
